@@ -14,7 +14,7 @@ from .csrc import ExtractError
 
 # rules whose case body is translated into the IR and proved equal to the Op.step case in Peg/TieSkel.lean
 IR_RULES = ["RULE_IF", "RULE_IFNOT", "RULE_NOT", "RULE_DROP", "RULE_ONLY_TAGS", "RULE_SUB", "RULE_ACCUMULATE", "RULE_CAPTURE",
-            "RULE_POSITION", "RULE_CONSTANT", "RULE_GROUP", "RULE_NTH", "RULE_ERROR", "RULE_BETWEEN"]
+            "RULE_POSITION", "RULE_CONSTANT", "RULE_GROUP", "RULE_NTH", "RULE_ERROR", "RULE_BETWEEN", "RULE_TO", "RULE_THRU"]
 
 
 class Unsupported(Exception):
@@ -127,6 +127,9 @@ def parse_case(text):
     if len(items) == 1 and items[0][0] == 'block':
         return items[0][1]
     return items
+
+
+OPCODES = {}          # RULE_x -> number, set by extract() from the current janet.h
 
 
 # ------------------------------------------------------------------------------------------------ IR extraction
@@ -363,6 +366,12 @@ class Extract:
         m = re.fullmatch(r"(\w+) == (\w+)", s)
         if m and m.group(1) in self.ptr and m.group(2) in self.ptr:
             return ".ptrEq %d %d" % (self.ptr[m.group(1)], self.ptr[m.group(2)])
+        m = re.fullmatch(r"(\w+) (<=|>) s -> text_end", s)
+        if m and m.group(1) in self.ptr:
+            return ".%s %d" % ("ptrLeEnd" if m.group(2) == "<=" else "ptrGtEnd", self.ptr[m.group(1)])
+        m = re.fullmatch(r"rule \[ 0 \] == (RULE_\w+)", s)
+        if m and m.group(1) in OPCODES:
+            return ".opIs %d" % OPCODES[m.group(1)]
         m = re.fullmatch(r"(\w+) == UINT32_MAX", s)
         if m and m.group(1) in self.word:
             return ".wordIsMax %s" % self.we([m.group(1)])
@@ -387,6 +396,8 @@ class Extract:
         if len(toks) == 3 and toks[0] == "uint8_t" and toks[1] == "*" and re.fullmatch(r"\w+", toks[2]):   # `const uint8_t *p;`
             self.new_ptr(toks[2])
             return []
+        if len(toks) == 2 and toks[1] == "++" and toks[0] in self.ptr:
+            return [".ptrInc %d" % self.ptr[toks[0]]]
         if len(toks) == 2 and toks[1] == "++" and toks[0] in self.num:
             return [".numDef %d (.succ %d)" % (self.num[toks[0]], self.num[toks[0]])]
         if len(toks) == 2 and toks[0] == "Janet" and re.fullmatch(r"\w+", toks[1]):      # `Janet cap;`
@@ -458,6 +469,8 @@ class Extract:
                     self.val[name] = len(self.val)
                 return [".valDef %d %s" % (self.val[name], e)]
             if (ty == "uint8_t" and star) or (ty is None and name in self.ptr):
+                if rs == "NULL":
+                    return [".ptrNull %d" % self.new_ptr(name)]
                 if rs == "s -> text_end":
                     return [".endSave %d" % self.new_ptr(name)]
                 m2 = re.fullmatch(r"peg_rule \( (.*) \)", rs)
@@ -563,6 +576,14 @@ def conv(stmts, ex, end=".fall", loops=None):
             return ".retNull"
         if len(toks) == 1 and toks[0] in ex.ptr:
             return "(.ret %d)" % ex.ptr[toks[0]]
+        if "?" in toks and ":" in toks:          # return c ? a : b
+            qi, ci = toks.index("?"), len(toks) - 1 - toks[::-1].index(":")
+            c = ex.cond(toks[:qi])
+            a = conv([('return', toks[qi + 1:ci])], ex.clone(), end, loops)
+            b = conv([('return', toks[ci + 1:])], ex.clone(), end, loops)
+            if isinstance(c, tuple) and c[0] == 'not':
+                c, a, b = c[1], b, a
+            return "(.ite %s %s %s)" % (cond_lean(c), a, b)
         raise Unsupported("return expression `%s`" % " ".join(toks))
     if k == 'goto':
         if st[1] != "tail" or ex.pending_rule is None:
@@ -665,6 +686,8 @@ def token_diff(a, b):
 def extract(tree):
     from . import peg as gen_peg
     src = csrc.strip_comments(csrc.read(tree, "src/core/peg.c"))
+    OPCODES.clear()
+    OPCODES.update(csrc.enum_values(csrc.strip_comments(csrc.read(tree, "src/include/janet.h")), "RULE_LITERAL"))
     body = csrc.func_body(src, "peg_rule")
     progs, problems, canons, loops = {}, {}, {}, {}
     for labels, text in gen_peg.split_cases(body):
